@@ -80,17 +80,30 @@ def jdel(j, path):
 
 
 JSON_OPS = ["delete", "null", "wrongtype", "badenum", "empty", "toolong", "forbidden", "badliteral", "badbase64", "unknowntype", "hugeliteral"]
-HUGE = ["P" + "9" * 400 + "Y", "PT" + "9" * 400 + "S", "-P" + "9" * 400 + "D"]
+# out of the representable range at parse time (huge year/day counts are accepted by relativedelta and only fail when written:
+# that is C06's known finding about fields >= 2^53, not a reader matter)
+HUGE = ["PT" + "9" * 400 + "S", "-PT" + "9" * 400 + ".5S"]
 
 
-def damage_json(doc: dict, rng: random.Random) -> Optional[Tuple[str, Tuple]]:
+ORACLE_JSON_OPS = JSON_OPS + ["emptylist", "emptyobj"]      # judged by the oracle only (the model has no non-emptiness rules)
+
+
+def damage_json(doc: dict, rng: random.Random, ops: Optional[List[str]] = None) -> Optional[Tuple[str, Tuple]]:
     """apply one damage operator in place; returns (operator, path) — the first path element selects the identifiable"""
     paths = [p for p in json_paths(doc) if len(p) >= 3]
     rng.shuffle(paths)
     for path in paths[:40]:
         v = jget(doc, path)
-        op = rng.choice(JSON_OPS)
+        op = rng.choice(ops or JSON_OPS)
         last = path[-1]
+        if op == "emptylist":
+            if isinstance(v, list) and v:
+                jset(doc, path, []); return op, path
+            continue
+        if op == "emptyobj":
+            if isinstance(v, dict) and v and last != "modelType":
+                jset(doc, path, {}); return op, path
+            continue
         if op == "delete" and isinstance(last, str):
             jdel(doc, path); return op, path
         if op == "null":
@@ -357,7 +370,7 @@ def check_case(case: dict) -> Optional[C.Failing]:
     objs, doc = make_doc(case["seed"], case["index"], depth)
     want = {o.id: canon.canon(o) for o in objs}
     if fmt == "json":
-        dmg = damage_json(doc, rng) if "path" not in case else _redo_json(doc, case)
+        dmg = damage_json(doc, rng, ORACLE_JSON_OPS) if "path" not in case else _redo_json(doc, case)
         if dmg is None:
             return None
         op, path = dmg
@@ -408,7 +421,7 @@ def check_case(case: dict) -> Optional[C.Failing]:
 def _redo_json(doc, case):
     """re-apply a recorded damage (replay)"""
     rng = random.Random(f"C09case:{case['seed']}:{case['index']}")
-    return damage_json(doc, rng)
+    return damage_json(doc, rng, ORACLE_JSON_OPS)
 
 
 def objs_id_at(objs, path):
@@ -417,7 +430,8 @@ def objs_id_at(objs, path):
     return same[path[1]].id if path[1] < len(same) else None
 
 
-XML_OPS = ["delete", "emptytext", "badtext", "unknowntag", "toolong", "wronglist", "hugeliteral", "toplist", "topunknown", "pi"]
+XML_OPS = ["delete", "emptytext", "badtext", "unknowntag", "toolong", "wronglist", "hugeliteral", "toplist", "topunknown", "pi",
+           "emptychildren", "retagchildren"]
 AASNS = "https://admin-shell.io/aas/3/0"
 
 
@@ -459,6 +473,19 @@ def damage_xml(objs, rng: random.Random):
             continue
         if op == "topunknown":
             target.tag = ns + "noSuchIdentifiable"; return root, damaged_id, op
+        if op == "emptychildren":
+            if len(e) > 0:
+                for ch in list(e):
+                    e.remove(ch)
+                return root, damaged_id, op
+            continue
+        if op == "retagchildren":
+            if len(e) > 0:
+                for ch in list(e):
+                    if isinstance(ch.tag, str):
+                        ch.tag = ns + "noSuchMember"
+                return root, damaged_id, op
+            continue
         if op == "hugeliteral":
             vt = e.getparent().find(ns + "valueType")
             if etree.QName(e).localname in ("value", "min", "max") and vt is not None and len(e) == 0:
@@ -491,6 +518,56 @@ def oracle(ctx: C.Ctx, cov: C.Coverage, n: Optional[int] = None, seed: Optional[
                 sigs.add(f.sig); out.append(f)
     # not well-formed / non-AAS input: documented syntax error or empty result
     out += [f for f in garbage_checks(seed) if f.sig not in sigs]
+    out += [f for f in foreign_forms_check() if f.sig not in sigs and f.sig not in {g.sig for g in out}]
+    return out
+
+
+def foreign_forms_check() -> List[C.Failing]:
+    """An undamaged identifiable written by ANOTHER tool — every valid lexical form of the typed values, not only the ones this
+    SDK writes (table: c05.LEXICAL_FORMS) — next to a damaged one: it comes back complete, in both formats and both modes."""
+    from props import c05
+    from vf import canon
+    from basyx.aas.adapter.json import read_aas_json_file
+    from basyx.aas.adapter.xml import read_aas_xml_file
+    out: List[C.Failing] = []
+    forms = c05.LEXICAL_FORMS
+    good = {"modelType": "Submodel", "id": "urn:forms", "submodelElements": [
+        {"modelType": "Property", "idShort": f"f{j}", "valueType": xs, "value": lit} for j, (xs, lit, _) in enumerate(forms)]}
+    bad = {"modelType": "Submodel", "id": "urn:damaged", "submodelElements": [
+        {"modelType": "Property", "idShort": "p", "valueType": "xs:int", "value": "12x"}]}
+    ns = "https://admin-shell.io/aas/3/0"
+
+    def x(sm):
+        els = "".join(f"<aas:property><aas:idShort>{e['idShort']}</aas:idShort><aas:valueType>{e['valueType']}</aas:valueType>"
+                      f"<aas:value>{e['value']}</aas:value></aas:property>" for e in sm["submodelElements"])
+        return f"<aas:submodel><aas:id>{sm['id']}</aas:id><aas:submodelElements>{els}</aas:submodelElements></aas:submodel>"
+    xml = (f'<?xml version="1.0"?><aas:environment xmlns:aas="{ns}"><aas:submodels>{x(good)}{x(bad)}</aas:submodels>'
+           f'</aas:environment>').encode()
+    readers = {"json": lambda fs: list(read_aas_json_file(io.StringIO(json.dumps({"submodels": [good, bad]})), failsafe=fs)),
+               "xml": lambda fs: list(read_aas_xml_file(io.BytesIO(xml), failsafe=fs))}
+    for fmt, rd in readers.items():
+        try:
+            got = {o.id: o for o in rd(True)}
+        except Exception as e:
+            out.append(C.Failing(f"failsafe:{fmt}:raises:{root_cause(e)}", f"failsafe {fmt} reader raised on the foreign-forms document: {e!r}"[:200],
+                                 {"foreign_forms": fmt}))
+            continue
+        sm = got.get("urn:forms")
+        if sm is None:
+            out.append(C.Failing(f"failsafe:{fmt}:undamaged-lost", "the undamaged submodel written with foreign lexical forms is missing",
+                                 {"foreign_forms": fmt}))
+            continue
+        for j, (xs, lit, token) in enumerate(forms):
+            try:
+                v = sm.get_referable(f"f{j}").value
+            except Exception:
+                out.append(C.Failing(f"failsafe:{fmt}:undamaged-changed", f"property with the valid {xs} literal {lit!r} was dropped from an "
+                                     f"undamaged submodel", {"foreign_forms": fmt}))
+                break
+            if canon.native(v) != token and not (token[2] == "nan" and canon.native(v)[2] == "nan"):
+                out.append(C.Failing(f"failsafe:{fmt}:undamaged-changed", f"{xs} literal {lit!r} read as {canon.native(v)}, denotes {token}",
+                                     {"foreign_forms": fmt}))
+                break
     return out
 
 
@@ -546,6 +623,9 @@ def search(ctx: C.Ctx, disagreements, broken) -> List[C.Failing]:
 
 
 def replay(case) -> Optional[C.Failing]:
+    if isinstance(case, dict) and "foreign_forms" in case:
+        fs = [f for f in foreign_forms_check() if f.case.get("foreign_forms") == case["foreign_forms"]]
+        return fs[0] if fs else None
     if "garbage" in case:
         fs = [f for f in garbage_checks(0) if f.case.get("garbage") == case["garbage"] and f.case.get("fmt") == case["fmt"]
               and f.case.get("failsafe") == case["failsafe"]]
